@@ -210,6 +210,51 @@ def rule_r5(facts, rep, rid="C17-R5"):
     rep.floor(rid, "renderings of squashed notes", n, 2)
 
 
+def rule_r8(facts, rep, rid="C17-R8"):
+    """A reference is replaced by the *whole* referenced note: the pointer that to_key returns (the note's Document node) is squashed as it is, and the children of the
+    resulting tree are spliced in.  Moving to the document's first child before squashing keeps only the first top-level block (squash_from_pointer returns one tree for
+    the node it is given and never follows siblings)."""
+    f = facts.fn("Tree::squash_from_pointer")
+    rep.saw_fn(f)
+    c = ctx(f)
+    from .common import value_chain
+    tk = [x for x in fb.walk(f.body) if x.get("k") == "mcall" and x["name"] == "to_key"]
+    key = f.def_ + "|referenced-note-squashed-from-its-document-node"
+    if not tk:
+        rep.anchor_missing(rid, "to_key call in Tree::squash_from_pointer")
+        return
+    bad, rec_ok, splices = [], False, False
+    for t in tk:
+        chain = list(value_chain(c, t))
+        # `.and_then(|key| child.to_key(key))`: the value continues in the chain the closure is an argument of
+        clo_ = next((p for p in c.parents(t) if p.get("k") == "closure"), None)
+        if clo_ is not None:
+            host_ = c.parent_of.get(id(clo_))
+            if host_ is not None and host_.get("k") == "mcall" and host_["name"] in ("and_then", "map", "flat_map", "filter_map"):
+                chain += list(value_chain(c, host_))
+        for m_ in chain:
+            if m_["name"] in ("and_then", "map", "filter_map") and m_.get("args") and m_["args"][0].get("k") == "closure":
+                clo = m_["args"][0]
+                pids = set(lid for p_ in clo.get("params", []) for _n, lid in fb.pat_bindings(p_))
+                hops = [y for y in fb.walk(clo["body"]) if y.get("k") == "mcall" and y["name"] in ("child", "to_child", "next", "to_next", "child_id", "next_id") and
+                        any(z.get("k") == "path" and z.get("id") in pids for z in fb.walk(y.get("recv") or {}))]
+                rec = [y for y in fb.walk(clo["body"]) if y.get("k") in ("call", "mcall") and fb.callee(y) == f.def_]
+                if hops and not rec:
+                    bad.append(hops[0])
+                if rec and not hops:
+                    rec_ok = True
+                if any(y.get("k") == "field" and y.get("name") == "children" for y in fb.walk(clo["body"])):
+                    splices = True
+    if bad:
+        rep.violation(rid, key, "the pointer returned by to_key is moved with `.%s()` before it is squashed: only the referenced note's first top-level block is expanded, its other blocks "
+                      "are dropped (and an empty note is treated as missing)" % bad[0]["name"], loc(f, bad[0]))
+    elif rec_ok and splices:
+        rep.ok(rid, key, "to_key(..).map(|document| squash_from_pointer(document, depth - 1)).map(|t| t.children)", loc(f, tk[0]))
+    else:
+        rep.violation(rid, key, "the expansion of a reference is no longer `squash_from_pointer(<document pointer>, depth - 1)` followed by taking the children of the result "
+                      "(recursion on the document pointer: %s, children spliced: %s)" % (rec_ok, splices), loc(f, tk[0]))
+
+
 def run(facts, rep, tier):
     rep.rule("C17-R1", "Every recursive call of Tree::squash_from_pointer that crosses into another note (pointer derived from to_key) passes "
              "`depth - c` (c >= 1) and lies in a region guarded by a positive-depth test (enumerated idioms); structural calls pass depth "
@@ -252,3 +297,5 @@ def run(facts, rep, tier):
     rep.rule("C17-R7", "= C05-R7: only a paragraph that consists of exactly one reference is a block reference (a paragraph of two adjacent links is ordinary text and must not be expanded).")
     from . import c05
     c05.rule_r7(facts, rep, "C17-R7")
+    rep.rule("C17-R8", "A reference is replaced by the whole referenced note: the document pointer from to_key is squashed as it is and the result's children are spliced in.")
+    rule_r8(facts, rep)
